@@ -255,8 +255,9 @@ def op_then(ctx, t):
 def op_or(ctx, t):
     if t[0] not in ("opt", "res") or has_iter(t):
         return None
-    v = ctx.value(t)
-    return Step("<|", "<| " + v, lambda b: "%s.or(%s)" % (b, v), t)
+    i = ctx.cid()
+    v = "lv(%d, %s)" % (i, ctx.value(t))     # a logged operand EXPRESSION: evaluated exactly once per evaluation of the operator
+    return Step("<|", "<| " + v, lambda b: "%s.or(%s)" % (b, v), t, ids=[i])
 
 
 def op_or_else(ctx, t):
@@ -301,8 +302,9 @@ def op_collect_untyped(ctx, t):
 def op_chain(ctx, t):
     if t[0] != "it":
         return None
-    v = ctx.value(t, itlen=2)
-    return Step(">@>", ">@> " + v, lambda b: "%s.chain(%s)" % (b, v), t)
+    i = ctx.cid()
+    v = "lv(%d, %s)" % (i, ctx.value(t, itlen=2))
+    return Step(">@>", ">@> " + v, lambda b: "%s.chain(%s)" % (b, v), t, ids=[i])
 
 
 def op_find_map(ctx, t):
@@ -345,22 +347,24 @@ def op_flatten(ctx, t):
 def op_fold(ctx, t):
     if t[0] != "it":
         return None
-    init = ctx.k()
+    i0 = ctx.cid()
+    init = "lv(%d, %s)" % (i0, ctx.k())
     c, i = cl(ctx, "acc: u8, v: %s" % ty(t[1]), "acc.wrapping_mul(3) ^ v.obs().wrapping_add(%s)" % ctx.k(), "acc ^ v.obs()")
-    return Step("^@", "^@ %s, %s" % (init, c), lambda b: "%s.fold(%s, %s)" % (b, init, c), U8, ids=[i])
+    return Step("^@", "^@ %s, %s" % (init, c), lambda b: "%s.fold(%s, %s)" % (b, init, c), U8, ids=[i0, i])
 
 
 def op_try_fold(ctx, t):
     if t[0] != "it":
         return None
-    init = ctx.k()
+    i0 = ctx.cid()
+    init = "lv(%d, %s)" % (i0, ctx.k())
     if ctx.rnd.random() < 0.5:
         c, i = cl(ctx, "acc: u8, v: %s" % ty(t[1]), "mo(v.obs() != %s, acc ^ v.obs())" % ctx.k(), "acc ^ v.obs()")
         out = OPT(U8)
     else:
         c, i = cl(ctx, "acc: u8, v: %s" % ty(t[1]), "mk(v.obs() != %s, acc ^ v.obs())" % ctx.k(), "acc ^ v.obs()")
         out = RES(U8)
-    return Step("?^@", "?^@ %s, %s" % (init, c), lambda b: "%s.try_fold(%s, %s)" % (b, init, c), out, ids=[i])
+    return Step("?^@", "?^@ %s, %s" % (init, c), lambda b: "%s.try_fold(%s, %s)" % (b, init, c), out, ids=[i0, i])
 
 
 def op_find(ctx, t):
@@ -373,8 +377,9 @@ def op_find(ctx, t):
 def op_zip(ctx, t):
     if t[0] != "it":
         return None
-    v = ctx.value(IT(U8), itlen=2)
-    return Step(">^>", ">^> " + v, lambda b: "%s.zip(%s)" % (b, v), IT(PAIR(t[1], U8)))
+    i = ctx.cid()
+    v = "lv(%d, %s)" % (i, ctx.value(IT(U8), itlen=2))
+    return Step(">^>", ">^> " + v, lambda b: "%s.zip(%s)" % (b, v), IT(PAIR(t[1], U8)), ids=[i])
 
 
 def op_unzip(ctx, t):
